@@ -8,14 +8,23 @@ package daemonset
 @*/
 /*@ immutable types/daemonset.subscription.parent types/daemonset.subscription.outch types/daemonset.subscription.cache
   types/daemonset.cache.parent types/daemonset.controller.parent types/daemonset.controller.cache types/daemonset.filterController.filterParent
-  types/daemonset.filterSubscription.filterParent
+  types/daemonset.filterSubscription.filterParent types/daemonset.filterController.controller
 @*/
 /*@ nonblocking-send types/daemonset.subscription.outch
 @*/
 
 /*@ theory daemonsettyped
 ;; theory lists wiring
-;; uses types/daemonset.event
+;; uses types/daemonset.event types/daemonset.controller
+(declare-fun |F!types/daemonset.filterController!controller| (V) |S!types/daemonset.controller|)
+(assert (forall ((c V)) (! (=> (= (dyntype c) |ty!*types/daemonset.filterController|)
+                               (not (= (|types/daemonset.controller.parent| (|F!types/daemonset.filterController!controller| c)) vnil)))
+                          :pattern ((|F!types/daemonset.filterController!controller| c)))))
+(declare-fun |F!types/daemonset.controller!parent| (V) V)
+; object invariant of the typed controllers (they are only built by newController / newFilterController,
+; whose precondition is a non-nil parent; the field is immutable)
+(assert (forall ((c V)) (! (=> (or (= (dyntype c) |ty!*types/daemonset.controller|) (= (dyntype c) |ty!*types/daemonset.filterController|))
+                               (not (= (|F!types/daemonset.controller!parent| c) vnil))) :pattern ((|F!types/daemonset.controller!parent| c)))))
 (define-fun isT ((o V)) Bool (and (not (= o vnil)) (= (dyntype o) |ty!*apps/v1.DaemonSet|)))
 (declare-fun tevt-type (V) Str)
 (declare-fun tevt-res (V) V)
@@ -239,6 +248,23 @@ package daemonset
   at call(Refilter) assert [refilters-the-untyped-subscription-with-the-given-filter] (and (= $recv {s.filterParent}) (= $0 {f}))
 @*/
 
+/*@ func types/daemonset.NewMonitor
+  props C20 C16
+  theory daemonsettyped
+  allow panic
+  note NewMonitor panics for a Publisher that is not one of this package's controllers (documented in the code)
+  requires (and (not (= {publisher} vnil)) (not (= {handler} vnil)))
+  at call(OnInitialize) assert [initialize-adapter] (= (closureOf $0) "types/daemonset.NewMonitor$1")
+  at call(OnCreate) assert [create-adapter-calls-oncreate] (= (closureOf $0) "types/daemonset.NewMonitor$2")
+  at call(OnUpdate) assert [update-adapter-calls-onupdate] (= (closureOf $0) "types/daemonset.NewMonitor$3")
+  at call(OnDelete) assert [delete-adapter-calls-ondelete] (= (closureOf $0) "types/daemonset.NewMonitor$4")
+  ensures (=> (= result1 vnil) (not (= result0 vnil)))
+@*/
+/*@ func types/daemonset.BuildHandler
+  props C20
+  fresh result
+  ensures (not (= result vnil))
+@*/
 /*@ func types/daemonset.NewMonitor$1
   props C20 C16
   theory daemonsettyped
